@@ -18,7 +18,7 @@ def _contract(args, kw):
     def deco(a, k):
         cls = a[0]
         UNIVERSE[0].contracts.append({'target': target, 'cls': cls, 'props': list(interp_ref[0].iterate(props)), 'meta': meta,
-                                      'name': cls.name, 'module': cls.module.name})
+                                      'name': meta.get('name', cls.name), 'module': cls.module.name})
         return cls
     return Builtin('contract()', deco)
 
@@ -30,7 +30,7 @@ def _lemma(args, kw):
     def deco(a, k):
         cls = a[0]
         UNIVERSE[0].contracts.append({'target': None, 'cls': cls, 'props': list(interp_ref[0].iterate(props)), 'meta': meta,
-                                      'name': cls.name, 'module': cls.module.name})
+                                      'name': meta.get('name', cls.name), 'module': cls.module.name})
         return cls
     return Builtin('lemma()', deco)
 
@@ -52,7 +52,13 @@ def s_eq(a, b):
 
 
 def s_implies(a, b):
-    a, b = force(a), force(b)
+    a = force(a)
+    from .values import FunctionVal, BoundMethod
+    if isinstance(force(b), (FunctionVal, BoundMethod)):
+        if isinstance(a, bool):
+            return _as_bool(merged_call(b, [], exc_as_false=True)) if a else True
+        return ops.s_or(ops.s_not(a), _as_bool(merged_call(b, [], extra=[zbool(a)], exc_as_false=True)))
+    b = force(b)
     if isinstance(a, bool):
         return b if a else True
     if not isinstance(b, (bool, SBool)):
@@ -74,19 +80,24 @@ def _as_bool(v):
     return truth(v)
 
 
-def merged_call(fn, args):
+def merged_call(fn, args, extra=(), exc_as_false=False):
     """Call an interpreted function in a nested exploration and merge the outcomes into one value (no outer fork)."""
     from .values import explore, PyRaise
     I = interp_ref[0]
     outer = CTX.path
-    outs = explore(lambda: I.call(fn, list(args), {}), base=outer.all_conds(), want_local_conds=True)
+    outs = explore(lambda: I.call(fn, list(args), {}), base=outer.all_conds() + list(extra), want_local_conds=True)
     alts = []
     for o in outs:
         c = z3.And(*o.conds) if o.conds else z3.BoolVal(True)
         if o.kind == 'exc':
+            if exc_as_false:
+                alts.append((c, False))     # an undefined contract expression does not hold
+                continue
             raise OutOfSubset(f'contract expression raises {o.value.cls.name} {o.value.attrs.get("args")}')
-        alts.append((c, o.value))
+        alts.append((c, _as_bool(o.value) if exc_as_false and not isinstance(force(o.value), (bool, SBool)) else o.value))
     if not alts:
+        if extra:
+            return True      # the guard is contradictory under the enclosing path
         from .values import Infeasible
         raise Infeasible()
     return ops.merge(alts)
@@ -100,7 +111,7 @@ def s_forall(xs, pred):
     if isinstance(xs, ASet):
         return xs.forall(pred)
     I = interp_ref[0]
-    return ops.s_and(*[_as_bool(merged_call(pred, [x])) for x in I.iterate(xs)])
+    return ops.s_and(*[_as_bool(merged_call(pred, [x], exc_as_false=True)) for x in I.iterate(xs)])
 
 
 def s_exists(xs, pred):
@@ -108,7 +119,7 @@ def s_exists(xs, pred):
     if isinstance(xs, AList):
         return xs.exists(pred)
     I = interp_ref[0]
-    return ops.s_or(*[_as_bool(merged_call(pred, [x])) for x in I.iterate(xs)])
+    return ops.s_or(*[_as_bool(merged_call(pred, [x], exc_as_false=True)) for x in I.iterate(xs)])
 
 
 def s_ite(c, a, b):
@@ -144,6 +155,10 @@ class RaisedVal:
 
     def __repr__(self):
         return f'Raised({self.exc.cls.name})'
+
+    def pyvc_attr(self, I, name):
+        from .ops import raise_py
+        raise_py('AttributeError', f'the call raised {self.exc.cls.name}; it has no result attribute {name}')
 
 
 def s_raised(result, *classes):
